@@ -286,21 +286,21 @@ type faultPoint struct {
 }
 
 type c09world struct {
-	p         *C09Plan
-	cfg       simrt.Config
-	partStart time.Time
-	tmpl      string // fixture root (contains data/)
-	tags      []string            // tag columns of the measurement (union over all hours): the key of the uniform-metadata check
-	hourTags  map[int][]string    // hour partition -> its tag columns: union of the arc:tags of the partition's files
-	timeOnly  bool                // some file carries arc:dedup_time and no arc:tags: its producer declares one row per timestamp
-	dedup     bool
+	p           *C09Plan
+	cfg         simrt.Config
+	partStart   time.Time
+	tmpl        string           // fixture root (contains data/)
+	tags        []string         // tag columns of the measurement (union over all hours): the key of the uniform-metadata check
+	hourTags    map[int][]string // hour partition -> its tag columns: union of the arc:tags of the partition's files
+	timeOnly    bool             // some file carries arc:dedup_time and no arc:tags: its producer declares one row per timestamp
+	dedup       bool
 	uniformMeta bool
-	job       int    // resolved target subprocess invocation
-	node      string // node whose operations form the fault window
-	expInit   map[string]int // canonical row -> count (initial files)
-	expLate   map[string]int
-	keyOf     map[string]string // canonical row -> dedup key
-	valsOf    map[string]map[string]any // canonical row -> its column values
+	job         int            // resolved target subprocess invocation
+	node        string         // node whose operations form the fault window
+	expInit     map[string]int // canonical row -> count (initial files)
+	expLate     map[string]int
+	keyOf       map[string]string         // canonical row -> dedup key
+	valsOf      map[string]map[string]any // canonical row -> its column values
 }
 
 func (w *c09world) fileRel(f *C09File) string {
@@ -413,10 +413,10 @@ func newC09World(p *C09Plan, cfg simrt.Config) *c09world {
 // the file-system observer, and judges "no input file is removed before its
 // rows are in a complete output file" at every removal.
 type tracker struct {
-	w        *c09world
-	dataDir  string
-	present  map[string][]string // rel path -> canonical rows
-	meta     map[string]fileMeta // rel path -> dedup metadata found in the file's footer
+	w       *c09world
+	dataDir string
+	present map[string][]string // rel path -> canonical rows
+	meta    map[string]fileMeta // rel path -> dedup metadata found in the file's footer
 	// mixedKeys: dedup keys of rows that went into a job together with rows
 	// that have the same time and the same values in every tag column the
 	// job's inputs declare, but a different value in a tag column that only
@@ -424,10 +424,12 @@ type tracker struct {
 	// arc:tags of its own, e.g. a compacted output). Diagnosis only: it
 	// separates the fingerprints of two different causes of a lost key, it
 	// never decides whether a key is lost.
-	mixedKeys map[string]bool
-	viol     []string            // rule|msg
-	unread   []string
-	removals int
+	// The value says which kind of input held the rows without declaring
+	// the tag: a compacted output or a raw file (e.g. written from WAL replay).
+	mixedKeys map[string]string
+	viol      []string // rule|msg
+	unread    []string
+	removals  int
 }
 
 type fileMeta struct {
@@ -457,7 +459,7 @@ func (t *tracker) load(rel string) {
 }
 
 func newTracker(w *c09world, dataDir string) *tracker {
-	t := &tracker{w: w, dataDir: dataDir, present: map[string][]string{}, meta: map[string]fileMeta{}, mixedKeys: map[string]bool{}}
+	t := &tracker{w: w, dataDir: dataDir, present: map[string][]string{}, meta: map[string]fileMeta{}, mixedKeys: map[string]string{}}
 	for _, rel := range listFiles(dataDir) {
 		if isVisibleParquet(rel) {
 			t.load(rel)
@@ -500,8 +502,17 @@ func (t *tracker) jobInputs(files []string) {
 	}
 	sort.Strings(cols)
 	groups := map[string]map[string]bool{} // key over the declared columns -> oracle keys in it
+	holder := map[string]string{}          // group -> kind of undeclaring input that contributed to it
 	for _, f := range files {
-		for _, c := range t.present[filepath.ToSlash(f)] {
+		rel := filepath.ToSlash(f)
+		kind := ""
+		if m, ok := t.meta[rel]; !ok || (len(m.tags) == 0 && !m.dedupTime) {
+			kind = "raw-file-without-arc-tags"
+			if strings.Contains(rel, "_compacted.parquet") || strings.Contains(rel, "_daily.parquet") {
+				kind = "compacted-output-without-arc-tags"
+			}
+		}
+		for _, c := range t.present[rel] {
 			m, ok := t.w.valsOf[c]
 			if !ok {
 				continue
@@ -511,14 +522,23 @@ func (t *tracker) jobInputs(files []string) {
 				groups[g] = map[string]bool{}
 			}
 			groups[g][t.w.key(c)] = true
+			if kind != "" && holder[g] != "compacted-output-without-arc-tags" {
+				holder[g] = kind
+			}
 		}
 	}
 	found := false
-	for _, ks := range groups {
+	for g, ks := range groups {
 		if len(ks) > 1 {
 			found = true
+			h := holder[g]
+			if h == "" {
+				h = "inputs-declare-narrower-arc-tags"
+			}
 			for k := range ks {
-				t.mixedKeys[k] = true
+				if t.mixedKeys[k] != "compacted-output-without-arc-tags" {
+					t.mixedKeys[k] = h
+				}
 			}
 		}
 	}
@@ -562,15 +582,18 @@ func (t *tracker) observe(op *simrt.FSOp, err error) {
 				}
 			}
 		}
-		missing, mixed := 0, 0
+		missing, mixed, mixedKind := 0, 0, ""
 		for _, c := range rows {
 			k := c
 			if t.w.dedup {
 				k = t.w.key(c)
 			}
 			if !have[k] {
-				if t.w.dedup && t.mixedKeys[k] {
+				if t.w.dedup && t.mixedKeys[k] != "" {
 					mixed++
+					if mixedKind == "" || t.mixedKeys[k] < mixedKind {
+						mixedKind = t.mixedKeys[k]
+					}
 				} else {
 					missing++
 				}
@@ -584,7 +607,7 @@ func (t *tracker) observe(op *simrt.FSOp, err error) {
 			t.viol = append(t.viol, fmt.Sprintf("C09.file-removed-before-rows-in-complete-output.%s|%s removed while %d of its %d rows are in no other complete file of the partition", kind, filepath.Base(rel), missing, len(rows)))
 		}
 		if mixed > 0 {
-			t.viol = append(t.viol, fmt.Sprintf("C09.file-removed-before-rows-in-complete-output"+mixedCause+"|%s %s removed while %d of its %d rows are in no other complete file of the partition: the job merged them into rows that differ in a tag column which none of the job's inputs declares in arc:tags (another file of the partition does)", kind, filepath.Base(rel), mixed, len(rows)))
+			t.viol = append(t.viol, fmt.Sprintf("C09.file-removed-before-rows-in-complete-output"+mixedCause+"."+mixedKind+"|%s %s removed while %d of its %d rows are in no other complete file of the partition: the job merged them into rows that differ in a tag column which none of the job's inputs declares in arc:tags (another file of the partition does)", kind, filepath.Base(rel), mixed, len(rows)))
 		}
 	}
 }
@@ -607,7 +630,7 @@ type verdict struct {
 const mixedCause = ".collapsed-over-tag-undeclared-by-job-inputs"
 
 func ruleID(v verdict, circumstance string) string {
-	if strings.HasSuffix(v.rule, mixedCause) {
+	if strings.Contains(v.rule, mixedCause) {
 		return v.rule
 	}
 	return v.rule + "." + circumstance
@@ -615,7 +638,7 @@ func ruleID(v verdict, circumstance string) string {
 
 // judge compares what the complete files of the measurement show with what
 // was written.
-func (w *c09world) judge(dataDir string, withLate bool, firstCycle bool, when string, mixedKeys map[string]bool) []verdict {
+func (w *c09world) judge(dataDir string, withLate bool, firstCycle bool, when string, mixedKeys map[string]string) []verdict {
 	var out []verdict
 	exp := map[string]int{}
 	for c, n := range w.expInit {
@@ -665,6 +688,7 @@ func (w *c09world) judge(dataDir string, withLate bool, firstCycle bool, when st
 		out = append(out, verdict{"C09.scan-count-mismatch", fmt.Sprintf("%s: DuckDB scan shows %d rows, the files hold %d", when, n, total)})
 	}
 	var lost, lostMixed, dup, alien int
+	lostMixedKind := ""
 	var exLost, exLostMixed, exDup, exAlien string
 	if !w.dedup {
 		for c, n := range exp {
@@ -701,10 +725,13 @@ func (w *c09world) judge(dataDir string, withLate bool, firstCycle bool, when st
 		for c := range exp {
 			k := w.key(c)
 			if !seenKey[k] && groups[k] == 0 {
-				if mixedKeys[k] {
+				if mixedKeys[k] != "" {
 					lostMixed++
 					if exLostMixed == "" || c < exLostMixed {
 						exLostMixed = c
+					}
+					if lostMixedKind == "" || mixedKeys[k] < lostMixedKind {
+						lostMixedKind = mixedKeys[k]
 					}
 				} else {
 					lost++
@@ -720,7 +747,7 @@ func (w *c09world) judge(dataDir string, withLate bool, firstCycle bool, when st
 		out = append(out, verdict{"C09.rows-lost", fmt.Sprintf("%s: %d written rows (dedup keys) are shown by no complete file, e.g. %s", when, lost, exLost)})
 	}
 	if lostMixed > 0 {
-		out = append(out, verdict{"C09.rows-lost" + mixedCause, fmt.Sprintf("%s: %d written rows (dedup keys) are shown by no complete file, e.g. %s: a job merged them into rows that differ in a tag column which none of that job's inputs declares in arc:tags (another file of the partition does; the input holding the values carries no arc:tags, e.g. a compacted output)", when, lostMixed, exLostMixed)})
+		out = append(out, verdict{"C09.rows-lost" + mixedCause + "." + lostMixedKind, fmt.Sprintf("%s: %d written rows (dedup keys) are shown by no complete file, e.g. %s: a job merged them into rows that differ in a tag column which none of that job's inputs declares in arc:tags (another file of the partition does; the input holding the values carries no arc:tags, e.g. a compacted output)", when, lostMixed, exLostMixed)})
 	}
 	if dup > 0 {
 		out = append(out, verdict{"C09.rows-duplicated", fmt.Sprintf("%s: %d rows are shown more often than they were written, e.g. %s", when, dup, exDup)})
@@ -732,20 +759,20 @@ func (w *c09world) judge(dataDir string, withLate bool, firstCycle bool, when st
 }
 
 type epResult struct {
-	res      simrt.Result
-	verdicts []verdict
-	ops      []fsRec // twin only: ops of the target window
-	winSteps int64
-	podSteps int64
-	jobSteps []int64
+	res        simrt.Result
+	verdicts   []verdict
+	ops        []fsRec // twin only: ops of the target window
+	winSteps   int64
+	podSteps   int64
+	jobSteps   []int64
 	partInputs int
 	atFault    string // what the faulted node had made durable when the first cycle ended
-	fired    bool
-	stepped  bool // the wall clock was stepped when the targeted job was killed
-	jobs     int
-	killed   int
-	cycleErr string
-	note     string
+	fired      bool
+	stepped    bool // the wall clock was stepped when the targeted job was killed
+	jobs       int
+	killed     int
+	cycleErr   string
+	note       string
 }
 
 // episode executes the plan once; fp == nil is the twin.
